@@ -1,6 +1,7 @@
 package c19
 
 import (
+	commitmenttypes "github.com/teleport-network/teleport/x/xibc/core/commitment/types"
 	"fmt"
 	"sort"
 	"strings"
@@ -95,6 +96,36 @@ func Keys(r *ev.Run, tier string) (evals, nontrivial int64) {
 		}
 		nontrivial += int64(len(seen))
 		r.Outcome(fmt.Sprintf("key constructor %s: %d distinct keys", cname, len(seen)))
+	}
+
+	// the proof path a proof-verifying client derives from a triple: prefix applied, key read back for the store lookup —
+	// it must be exactly the key the keeper wrote (escaping of the path element must be loss-free for every valid name)
+	{
+		prefix := commitmenttypes.MerklePrefix{KeyPrefix: []byte("xibc")}
+		paths := map[string]func(s, d string, q uint64) string{"commitment": host.PacketCommitmentPath, "ack": host.PacketAcknowledgementPath}
+		keys := map[string]func(s, d string, q uint64) []byte{"commitment": host.PacketCommitmentKey, "ack": host.PacketAcknowledgementKey}
+		for kind, pf := range paths {
+			bad := 0
+			for _, a := range names {
+				for _, b := range some {
+					for _, q := range []uint64{1, 1<<64 - 1} {
+						evals++
+						mp, err := commitmenttypes.ApplyPrefix(prefix, commitmenttypes.NewMerklePath(pf(a, b, q)))
+						var got []byte
+						if err == nil {
+							got, err = mp.GetKey(1)
+						}
+						if want := keys[kind](a, b, q); err != nil || string(got) != string(want) {
+							if bad == 0 {
+								r.Violation("C19:proof-path-key-differs-from-store-key/"+kind, fmt.Sprintf("(%s,%s,%d): store key %q, key derived from the proof path %q (err %v)", a, b, q, want, got, err), map[string]interface{}{"engine": "c19-keys", "src": a, "dst": b, "seq": q})
+							}
+							bad++
+						}
+					}
+				}
+			}
+			r.Outcome(fmt.Sprintf("proof path of %s keys reads back as the store key for every valid name (mismatches: %d)", kind, bad))
+		}
 	}
 
 	// write through the real keeper setters, read back through the real iterators
